@@ -68,12 +68,20 @@ func (k *kubelet) enqueue(t *task) {
 func (k *kubelet) next() (*task, time.Duration) {
 	now := k.w.now()
 	var wait time.Duration = -1
-	for i, t := range k.q {
-		if t.notBefore <= now || k.w.quiesced {
-			k.q = append(k.q[:i], k.q[i+1:]...)
-			k.busy = true
-			return t, 0
+	// status reports first: the status manager does not wait for sandbox operations
+	for pass := 0; pass < 2; pass++ {
+		for i, t := range k.q {
+			if (pass == 0) != (t.kind == tStatus) {
+				continue
+			}
+			if t.notBefore <= now || k.w.quiesced {
+				k.q = append(k.q[:i], k.q[i+1:]...)
+				k.busy = true
+				return t, 0
+			}
 		}
+	}
+	for _, t := range k.q {
 		if d := t.notBefore - now; wait < 0 || d < wait {
 			wait = d
 		}
